@@ -94,3 +94,11 @@ def concretize(x, lo, hi):
         if x == c:
             return c
     return x
+
+
+def concretize_in(x, values):
+    """case split over an explicit list of values"""
+    for c in values:
+        if x == c:
+            return c
+    return x
